@@ -656,7 +656,8 @@ class Node:
                 r_list += self.tcp_sockets
             if self.sctp_sockets:
                 r_list += self.sctp_sockets
-            for conn_id, conn_socket in self.peer_sockets.items():
+            # connections may be closed and removed by other threads meanwhile
+            for conn_id, conn_socket in list(self.peer_sockets.items()):
                 conn = self.connections.get(conn_id)
                 if not conn:
                     continue
